@@ -247,6 +247,49 @@ func c18Shapes(quick bool) []Shape {
 			Fn("both", []ParamDecl{Pm("a", TString), Pm("b", TString)}, []Type{TString}, DefN([]string{"fo", "fe", "fc"}, one("./probe", one("./probe", V("a")), one("./probe", V("b")), V("a"))), Ret(V("fo"))),
 			Pr(Call("both", S("l"), S("r"))))
 	}})
+	// programs named by an identifier, and result variables that carry the name of the program they came from
+	sh = append(sh, Shape{Name: "program-named-by-identifier", Pre: pre, Prog: func(c *gosym.Ctx) *Program {
+		id := func(name string, args ...Expr) Expr { return AppCallE{Calls: []AppOne{{Name: name, Args: args, Ident: true}}} }
+		return Prog(
+			DefN([]string{"echo", "e1", "c1"}, id("echo", S("first"), S("call"))), DefN([]string{"out", "e2", "c2"}, id("echo", S("second"))), Pr(V("echo"), V("c1"), V("out"), V("c2")),
+			DefN([]string{"t1", "t2", "t3"}, id("basename", S("/x/yy"))), Pr(S("["), V("t1"), S("]"), V("t3")),
+			Def("basename", S("shadow")), DefN([]string{"u1", "u2", "u3"}, id("basename", S("/p/q"))), Pr(V("basename"), V("u1"), V("u3")),
+			Do(id("echo", V("echo"), V("basename"))),
+			Fn("f", []ParamDecl{Pm("dirname", TString)}, []Type{TString, TInt}, DefN([]string{"a", "b", "k"}, id("dirname", S("/m/n"))), DefN([]string{"a2", "b2", "k2"}, id("echo", V("dirname"))), Ret(Op("+", V("a"), V("a2")), V("k"))),
+			DefN([]string{"r", "rk"}, Call("f", S("param"))), Pr(V("r"), V("rk")))
+	}, Setup: func(c *gosym.Ctx, in *Interp, shl *Shell) {
+		std := func(name string, args []gosym.Str) (gosym.Str, int64, bool) {
+			switch name {
+			case "echo":
+				var parts []gosym.Str
+				for i, a := range args {
+					if i > 0 {
+						parts = append(parts, gosym.Conc(" "))
+					}
+					parts = append(parts, a)
+				}
+				return gosym.Concat(append(parts, gosym.Conc("\n"))...), 0, true
+			case "basename", "dirname":
+				g, _ := args[0].Go()
+				if name == "basename" {
+					return gosym.Conc(g[strings.LastIndex(g, "/")+1:] + "\n"), 0, true
+				}
+				return gosym.Conc(g[:strings.LastIndex(g, "/")] + "\n"), 0, true
+			}
+			return gosym.Str{}, 0, false
+		}
+		shl.Stub = func(sh *Shell, argv []gosym.Str, stdin gosym.Str) (gosym.Str, gosym.Value) {
+			name, _ := argv[0].Go()
+			if out, st, ok := std(name, argv[1:]); ok {
+				return out, st
+			}
+			return gosym.Str{}, int64(127)
+		}
+		in.AppStub = func(in *Interp, name string, args []gosym.Str, stdin gosym.Str) (gosym.Str, *sym.Term) {
+			out, st, _ := std(name, args)
+			return out, c.B.Int(st, 64)
+		}
+	}})
 	mk("capture-in-function", func(c *gosym.Ctx, v gosym.Str) []Stmt {
 		prog := []string{"./probe3", "./probe200", "./probe"}[c.Choose("prog", 0, 2)]
 		return []Stmt{Fn("run", []ParamDecl{Pm("a", TString)}, []Type{TString, TInt}, DefN([]string{"o", "e", "code"}, AppCallE{Calls: []AppOne{{Name: "./probe", Args: []Expr{V("a")}}, {Name: prog, Args: []Expr{S("x")}}}}), Pr(V("e")), Ret(V("o"), V("code"))),
